@@ -41,6 +41,13 @@
 (*    stored form, every replica has its own partition object and handler,  *)
 (*    a subscriber may be served by an in-sync follower, the leadership may  *)
 (*    move to another replica, which then seals.                            *)
+(*    Whether a stream is encrypted is part of the stream's metadata, which *)
+(*    every server keeps in its Raft state machine and PERSISTS in two      *)
+(*    forms: the CREATE entry of the Raft log and, once a snapshot is taken, *)
+(*    the snapshot.  A partition object - and with it the handler - is      *)
+(*    rebuilt from the metadata on resume, on restart (from the latest      *)
+(*    snapshot if there is one, else by replaying the log) and when a       *)
+(*    running server installs a snapshot (Raft restore).                    *)
 EXTENDS Integers, Sequences, FiniteSets
 
 CONSTANTS BoundsChecked,   \* TRUE: Read as repaired (fix: commit); FALSE: as pinned (index/slice panics)
@@ -211,7 +218,10 @@ NewT(m) == m \in {16, 32}
 -----------------------------------------------------------------------------
 (* PIPELINE *)
 CONSTANTS Keys,            \* valid master keys, e.g. {"k1", "k2"}; "bad" = unset / wrong length
-          Replicas         \* servers holding a replica of both streams, e.g. {"a"} or {"a", "b"}
+          Replicas,        \* servers holding a replica of both streams, e.g. {"a"} or {"a", "b"}
+          SnapKeeps        \* TRUE (every registered cfg): a metadata snapshot carries the stream's encryption
+                           \* setting.  FALSE = defective variant of that one decision, used as a generator of
+                           \* directed scenarios (its counterexamples are replayed on the real code)
 
 Streams == {"enc", "plain"}
 Classes == {"empty", "short", "long"}     \* 0 bytes, 1..15 bytes, >= 16 bytes
@@ -226,9 +236,13 @@ VARIABLES up,       \* every server process is alive
           log,      \* per replica, per stream: what that server's partition log holds, entries [v, k, clear]:
                     \*   v value id it carries (0: none), k master key it opens under / "plain" / "none",
                     \*   clear: the raw stored value contains (>= 16 bytes) or equals (>= 1 byte) a published value
+          menc,     \* per replica, per stream: that server's metadata says the stream is encrypted (the stream
+                    \* configuration over the server default) - what the next partition object is built from
+          snap,     \* per replica, per stream: what the latest persisted metadata snapshot of that server says:
+                    \* "none" (no snapshot, or one that does not know the stream), "on", "off"
           obs       \* observable result of the last call
 
-vars == <<up, env, lead, hk, paused, log, obs>>
+vars == <<up, env, lead, hk, paused, log, menc, snap, obs>>
 
 Reps == DOMAIN hk          \* the replica set of the behaviour at hand (a recorded behaviour brings its own)
 
@@ -240,7 +254,12 @@ Init ==
   /\ hk = [r \in Replicas |-> [s \in Streams |-> IF s = "enc" THEN env ELSE "none"]]
   /\ paused = [s \in Streams |-> FALSE]
   /\ log = [r \in Replicas |-> [s \in Streams |-> <<>>]]
+  /\ menc = [r \in Replicas |-> [s \in Streams |-> s = "enc"]]
+  /\ snap = [r \in Replicas |-> [s \in Streams |-> "none"]]
   /\ obs = [a |-> "Open"]
+
+\* the handler a partition object of stream s gets when server r builds it from metadata saying `on`
+Built(on) == IF on THEN env ELSE "none"
 
 \* the values of a batch that are not hit by an injected seal failure, in order
 Keep(vals, fails) ==
@@ -258,11 +277,11 @@ DoPublish(s, vals, fails) ==
   /\ up /\ ~paused[s]
   /\ (s = "plain" => fails = {})
   /\ LET acc == Keep(vals, fails)
-         new == [j \in 1..Len(acc) |->
-                   Entry(acc[j].id, IF s = "enc" THEN hk[lead[s]][s] ELSE "plain", s = "plain" /\ acc[j].cls # "empty")] IN
+         k == IF hk[lead[s]][s] = "none" THEN "plain" ELSE hk[lead[s]][s]      \* no handler: appended verbatim
+         new == [j \in 1..Len(acc) |-> Entry(acc[j].id, k, k = "plain" /\ acc[j].cls # "empty")] IN
      log' = [r \in Reps |-> [log[r] EXCEPT ![s] = @ \o new]]
   /\ obs' = [a |-> "Publish", acks |-> [i \in 1..Len(vals) |-> IF i \in fails THEN "nack" ELSE "ack"]]
-  /\ UNCHANGED <<up, env, lead, hk, paused>>
+  /\ UNCHANGED <<up, env, lead, hk, paused, menc, snap>>
 
 P_Publish(s, vals, fails) ==
   LET acc == Keep(vals, fails) IN
@@ -273,7 +292,7 @@ P_Publish(s, vals, fails) ==
        /\ SubSeq(log'[r][s], 1, Len(log[r][s])) = log[r][s]
        /\ \A t \in Streams \ {s} : log'[r][t] = log[r][t]
        /\ s = "enc" => \A j \in (Len(log[r][s]) + 1)..Len(log'[r][s]) : ~log'[r][s][j].clear
-  /\ UNCHANGED <<env, lead, hk, paused>>
+  /\ UNCHANGED <<env, lead, hk, paused>>     \* (menc, snap: implementation level)
 
 \* the entries a subscriber served by replica `at` can be given: the handler of that server's partition opens them
 Readable(s, at, e) == s = "plain" \/ (e.k = hk[at][s] /\ hk[at][s] \in Keys)
@@ -288,12 +307,16 @@ Lead(s, at, tail) == CHOOSE m \in 0..Len(tail) : /\ \A j \in 1..m : Readable(s, 
 Rev(q) == [j \in 1..Len(q) |-> q[Len(q) + 1 - j]]
 Range(s, at, from, rev) == IF rev THEN Rev(SubSeq(log[at][s], 1, from + 1)) ELSE SubSeq(log[at][s], from + 1, Len(log[at][s]))
 
+\* as the code does it: a partition WITHOUT handler hands out the stored bytes as they are (the value for an
+\* entry stored verbatim, bytes that are no published value - id 0 - for a sealed one)
 DoSubscribe(s, from, rev, at) ==
   /\ up /\ ~paused[s] /\ at \in Reps /\ from \in 0..(Len(log[at][s]) - 1)
   /\ LET tail == Range(s, at, from, rev)
-         m == Lead(s, at, tail) IN
-     obs' = [a |-> "Subscribe", got |-> [j \in 1..m |-> tail[j].v], end |-> IF m < Len(tail) THEN "err" ELSE "eos"]
-  /\ UNCHANGED <<up, env, lead, hk, paused, log>>
+         m == IF hk[at][s] = "none" THEN Len(tail) ELSE Lead(s, at, tail) IN
+     obs' = [a |-> "Subscribe",
+             got |-> [j \in 1..m |-> IF hk[at][s] = "none" /\ tail[j].k # "plain" THEN 0 ELSE tail[j].v],
+             end |-> IF m < Len(tail) THEN "err" ELSE "eos"]
+  /\ UNCHANGED <<up, env, lead, hk, paused, log, menc, snap>>
 
 \* exactly the published values, in order, up to the first entry that is tampered / under another
 \* master key, where the subscription ends with an error and delivers nothing further - whichever
@@ -310,27 +333,54 @@ DoPause(s) ==
   /\ up /\ ~paused[s]
   /\ paused' = [paused EXCEPT ![s] = TRUE]
   /\ obs' = [a |-> "Pause"]
-  /\ UNCHANGED <<up, env, lead, hk, log>>
+  /\ UNCHANGED <<up, env, lead, hk, log, menc, snap>>
 
-\* resume replaces the partition object on every replica: new handlers are built from the environment
+\* resume replaces the partition object on every replica: new handlers are built from that server's metadata
+\* and the environment
 DoResume(s) ==
   /\ up /\ paused[s] /\ env \in Keys
   /\ paused' = [paused EXCEPT ![s] = FALSE]
-  /\ hk' = [r \in Reps |-> [hk[r] EXCEPT ![s] = IF s = "enc" THEN env ELSE "none"]]
+  /\ hk' = [r \in Reps |-> [hk[r] EXCEPT ![s] = Built(menc[r][s])]]
   /\ obs' = [a |-> "Resume"]
-  /\ UNCHANGED <<up, env, lead, log>>
+  /\ UNCHANGED <<up, env, lead, log, menc, snap>>
 
 \* the environment variable changes; handlers that exist keep the key they were built with
 DoSetEnv(k) ==
   /\ env' = k
   /\ obs' = [a |-> "SetEnv"]
-  /\ UNCHANGED <<up, lead, hk, paused, log>>
+  /\ UNCHANGED <<up, lead, hk, paused, log, menc, snap>>
 
-\* every server stopped and started again on the same data directory
+\* what a metadata snapshot taken by server r now says about stream s
+SnapNow(r, s) == IF menc[r][s] /\ SnapKeeps THEN "on" ELSE "off"
+
+\* server r persists a snapshot of its metadata (Raft log compaction: threshold reached, or forced)
+DoSnapshot(r) ==
+  /\ up /\ r \in Reps
+  /\ snap' = [snap EXCEPT ![r] = [s \in Streams |-> SnapNow(r, s)]]
+  /\ obs' = [a |-> "Snapshot"]
+  /\ UNCHANGED <<up, env, lead, hk, paused, log, menc>>
+
+\* every server stopped and started again on the same data directory.  The metadata is recovered from the
+\* latest snapshot when it knows the stream (entries behind the snapshot are replayed on top of it; none of them
+\* changes the encryption setting), else by replaying the Raft log from the CREATE entry (which carries the
+\* configuration the stream was created with).  Every partition object is built anew.
+Recovered(r, s) == IF snap[r][s] = "none" THEN menc[r][s] ELSE snap[r][s] = "on"
 DoRestart ==
   /\ up /\ env \in Keys
-  /\ hk' = [r \in Reps |-> [s \in Streams |-> IF s = "enc" THEN env ELSE "none"]]
+  /\ menc' = [r \in Reps |-> [s \in Streams |-> Recovered(r, s)]]
+  /\ hk' = [r \in Reps |-> [s \in Streams |-> Built(menc'[r][s])]]
   /\ obs' = [a |-> "Restart"]
+  /\ UNCHANGED <<up, env, lead, paused, log, snap>>
+
+\* a RUNNING server r takes a snapshot of its metadata and installs it (Raft restore: what a server does that
+\* was sent a snapshot because it lagged behind the log, or an operator restoring a backup): the metadata is
+\* dropped and rebuilt from the snapshot, every partition object of that server is closed and built anew
+DoInstall(r) ==
+  /\ up /\ r \in Reps /\ env \in Keys
+  /\ snap' = [snap EXCEPT ![r] = [s \in Streams |-> SnapNow(r, s)]]
+  /\ menc' = [menc EXCEPT ![r] = [s \in Streams |-> snap'[r][s] = "on"]]
+  /\ hk' = [hk EXCEPT ![r] = [s \in Streams |-> Built(menc'[r][s])]]
+  /\ obs' = [a |-> "Install"]
   /\ UNCHANGED <<up, env, lead, paused, log>>
 
 \* the partition gets another leader from the in-sync replicas (the follower reported the leader):
@@ -339,22 +389,22 @@ DoLeaderChange(s) ==
   /\ up /\ ~paused[s] /\ Cardinality(Reps) > 1
   /\ \E r \in Reps \ {lead[s]} : lead' = [lead EXCEPT ![s] = r]
   /\ obs' = [a |-> "LeaderChange"]
-  /\ UNCHANGED <<up, env, hk, paused, log>>
+  /\ UNCHANGED <<up, env, hk, paused, log, menc, snap>>
 
 \* a byte of the stored value of entry j of the encrypted stream is altered in a segment file of replica r
 DoTamper(r, j) ==
   /\ up /\ ~paused["enc"] /\ r \in Reps /\ j \in 1..Len(log[r]["enc"])
   /\ log' = [log EXCEPT ![r]["enc"][j] = Entry(0, "none", FALSE)]
   /\ obs' = [a |-> "Tamper"]
-  /\ UNCHANGED <<up, env, lead, hk, paused>>
+  /\ UNCHANGED <<up, env, lead, hk, paused, menc, snap>>
 
 \* a request to create a further encrypted stream is refused unless a valid master key is configured
 DoCreateProbe ==
   /\ up
   /\ obs' = [a |-> "CreateProbe", ok |-> env \in Keys]
-  /\ UNCHANGED <<up, env, lead, hk, paused, log>>
+  /\ UNCHANGED <<up, env, lead, hk, paused, log, menc, snap>>
 
-P_Quiet == up' /\ log' = log          \* pause / resume / restart / leader change / set-env / probe neither lose nor add anything
+P_Quiet == up' /\ log' = log          \* pause / resume / restart / snapshot / install / leader change / set-env / probe neither lose nor add anything
 P_Tamper == up' /\ \A r \in Reps : \A s \in Streams : Len(log'[r][s]) = Len(log[r][s])
 
 -----------------------------------------------------------------------------
@@ -368,4 +418,5 @@ TypeOK ==
   /\ \A r \in Reps : hk[r]["enc"] \in Keys /\ hk[r]["plain"] = "none"
   /\ \A s \in Streams : paused[s] \in BOOLEAN
   /\ \A r \in Reps : \A s \in Streams : \A j \in 1..Len(log[r][s]) : log[r][s][j].k \in Keys \cup {"plain", "none"}
+  /\ \A r \in Reps : \A s \in Streams : menc[r][s] = (s = "enc") /\ snap[r][s] \in {"none", IF s = "enc" THEN "on" ELSE "off"}
 =============================================================================
